@@ -30,6 +30,8 @@ def cases(draw):
         "mag": draw(st.sampled_from([1.0, 1.0, 0.1, 40.0])),
         "input": draw(st.sampled_from(["float", "float", "float", "quantized", "quantized-other-qtype", "quantized-per-axis"])),
         "via_dequantize": draw(st.booleans()),
+        "dtype": draw(st.sampled_from(["fp32", "fp32", "fp16", "bf16"])),
+        "gscale": draw(st.sampled_from([1.0, 1.0, 64.0, 1e-2])),  # loss-scaled / tiny upstream gradients
     }
     if kind == "linear":
         c["hp"] = {"t": "linear", "i": draw(st.sampled_from([1, 3, 8, 16, 33, 64, 160])), "o": draw(st.integers(1, 7)), "bias": draw(st.booleans())}
@@ -70,17 +72,18 @@ def _exec_case(case):
     g = torch.Generator().manual_seed(case["seed"])
     kind = case["kind"]
     aq, wq = ACT[case["aq"]], O.QTALL[case["wq"]]
+    dtype = gen.DT[case.get("dtype", "fp32")]
     fm = M.build_tree(case["hp"], g)
-    model = torch.nn.Sequential(fm)
+    model = torch.nn.Sequential(fm).to(dtype)
     if kind == "linear":
         shape = tuple(case["batch"]) + (case["hp"]["i"],)
     else:
         shape = tuple(case["batch"]) + (case["hp"]["ci"], case["hw"], case["hw"])
-    x = (torch.randn(shape, generator=g) * case["mag"])
+    x = (torch.randn(shape, generator=g) * case["mag"]).to(dtype)
     with torch.no_grad():
         fy = cut(model, x)
     rank = len(shape)
-    out.fingerprint = [kind, case["wq"], case["aq"], case["scales"], case["frozen"], case["xlayout"], case["glayout"], rank, case["hp"], case["input"]]
+    out.fingerprint = [kind, case["wq"], case["aq"], case["scales"], case["frozen"], case["xlayout"], case["glayout"], rank, case["hp"], case["input"], case.get("dtype", "fp32"), case.get("gscale", 1.0)]
     out.klass = [kind, f"w-{case['wq']}", f"act-{case['aq']}", f"rank{rank}", f"x-{case['xlayout']}", f"g-{case['glayout']}", "frozen" if case["frozen"] else "unfrozen",
                  f"scales-{case['scales']}", f"in-{case['input']}"]
     out.nontrivial = rank != 3 or case["xlayout"] != "contig" or case["glayout"] != "contig" or kind == "conv" or case["wq"] != "qint8" or case["frozen"]
@@ -94,8 +97,8 @@ def _exec_case(case):
     if aq is not None:
         f_in = {"drawn": 100.0, "saturating": 20.0, "ones": None, "calibrated": None}[case["scales"]]
         if f_in is not None:
-            qm.input_scale = torch.tensor(float(x.abs().max()) / f_in + 1e-6)
-            qm.output_scale = torch.tensor(max(float(fy.abs().max()), 1e-3) / (f_in * 0.9))
+            qm.input_scale = torch.tensor(float(x.abs().max()) / f_in + 1e-6, dtype=dtype)
+            qm.output_scale = torch.tensor(max(float(fy.abs().max()), 1e-3) / (f_in * 0.9), dtype=dtype)
         elif case["scales"] == "calibrated":
             with torch.no_grad(), Calibration(streamline=False):
                 model(x * 0.5)  # a narrower batch than the one used below: some activations saturate
@@ -135,7 +138,7 @@ def _exec_case(case):
             from optimum.quanto.tensor.quantizers import SymmetricQuantizer
 
             sshape = [inp.shape[0]] + [1] * (inp.ndim - 1)
-            sc = (s_in * (1 + torch.arange(inp.shape[0], dtype=torch.float32) * 0.25)).reshape(sshape)
+            sc = (s_in * (1 + torch.arange(inp.shape[0], dtype=torch.float32) * 0.25)).reshape(sshape).to(dtype)
             fed = SymmetricQuantizer.apply(inp, iq, 0, sc)
         else:
             fed = quantize_activation(inp, iq, s_in)
@@ -143,7 +146,7 @@ def _exec_case(case):
     y = cut(model, fed)
     if isinstance(y, Raised):
         return out.fail(f"{tag}/forward-raises:{y.type}", y.text)
-    gO = torch.randn(tuple(y.shape), generator=g)
+    gO = (torch.randn(tuple(y.shape), generator=g) * case.get("gscale", 1.0)).to(dtype)
     if case["glayout"] == "permuted":
         gO = _perm(gO)
     elif case["glayout"] == "expanded" and gO.ndim >= 2:
@@ -179,7 +182,8 @@ def _exec_case(case):
     wa = w2.detach().abs().requires_grad_(True)
     ba = None if b2 is None else b2.detach().abs().requires_grad_(True)
     functional(qm, kind, xa, wa, ba).backward(gO.to(torch.float64).abs())
-    u = gen.U[torch.float32]
+    u = gen.U[dtype]
+    fmax = gen.FMAX[dtype]
     nrows = max(1, gO.numel() // max(1, w2.shape[0]))
     Kx = w2.shape[0] * (w2[0].numel() // max(1, w2.shape[1])) if kind == "conv" else w2.shape[0]
 
@@ -190,8 +194,9 @@ def _exec_case(case):
         if tuple(got.shape) != tuple(want.shape):
             out.fail(f"{tag}/{name}-grad-shape", f"{tuple(got.shape)} vs {tuple(want.shape)}")
             return
-        tol = (K + 8) * u * mag + 4 * u * want.abs() + 1e-30
-        bad = ~((got.to(torch.float64) - want).abs() <= tol)
+        tol = (K + 8) * u * mag + 4 * u * want.abs() + 4 * gen.ETA[dtype]
+        # entries whose exact value (or whose partial sums) may leave the dtype's range are not judged
+        bad = ~((got.to(torch.float64) - want).abs() <= tol) & (mag * (1 + (K + 8) * u) < fmax)
         if bool(bad.any()):
             i = int(torch.nonzero(bad.reshape(-1))[0])
             sat = ""
